@@ -213,6 +213,8 @@ class Engine:
         self.subst = subst or {}                 # id(native object) -> engine value
         self.package = package
         self.solver = z3.SolverFor(logic)
+        self.logic = logic
+        self.quick_timeout_ms = 2500             # incremental attempt of an obligation before the one-shot solver takes over
         self.solver.set('timeout', query_timeout_ms)
         self.query_timeout_ms = query_timeout_ms
         self.mul_uf = mul_uf                     # symbolic products as one uninterpreted function, refined on `sat`
@@ -308,6 +310,18 @@ class Engine:
             self._models.append((tuple(c.get_id() for c in self.path.pc), m))
             if len(self._models) > 6:
                 del self._models[0]
+        return r, m
+
+    def _check_fresh(self, timeout_ms, *extra):
+        s = z3.SolverFor(self.logic)
+        s.set('timeout', int(timeout_ms))
+        t0 = time.time()
+        s.add(*self.path.pc)
+        s.add(*extra)
+        r = s.check()
+        m = s.model() if r == z3.sat else None
+        self.stats['solver_calls'] += 1
+        self.stats['solver_s'] += time.time() - t0
         return r, m
 
     def feasible(self, cond):
@@ -464,13 +478,17 @@ class Engine:
                     break
             if hit is not None:
                 return hit
-            if timeout_ms:
-                self.solver.set('timeout', timeout_ms)
+            # the incremental solver (shared with branch-feasibility queries) first, briefly; what it leaves open goes to
+            # a fresh one-shot solver, whose tactic pipeline is far stronger on the big leaf-wise equalities
+            budget = timeout_ms or self.query_timeout_ms
+            self.solver.set('timeout', min(self.quick_timeout_ms, budget))
             try:
                 r, m = self._check(z3.Not(c))
             finally:
-                if timeout_ms:
-                    self.solver.set('timeout', self.query_timeout_ms)
+                self.solver.set('timeout', self.query_timeout_ms)
+            if r == z3.unknown:
+                r, m = self._check_fresh(budget, z3.Not(c))
+                ob.backend = 'z3-oneshot'
             extra_defs = []
             if r == z3.sat and sym.MUL_UF[0]:
                 # products were abstracted by an uninterpreted function: re-examine with their exact definitions
@@ -478,11 +496,7 @@ class Engine:
                 if extra_defs:
                     if os.environ.get('VERIF_DEBUG'):
                         print('REFINE', kind, label, len(extra_defs), 'defs', flush=True)
-                    self.solver.set('timeout', self.mul_refine_timeout_ms)
-                    try:
-                        r, m = self._check(z3.Not(c), *extra_defs)
-                    finally:
-                        self.solver.set('timeout', self.query_timeout_ms)
+                    r, m = self._check_fresh(self.mul_refine_timeout_ms, z3.Not(c), *extra_defs)
                     ob.backend = 'z3+exact-products'
             if r == z3.unsat:
                 ob.status = 'proved'
@@ -492,7 +506,7 @@ class Engine:
                 if hints and extra_defs:
                     hints = list(hints) + extra_defs
                 if hints:
-                    r2, m2 = self._check(z3.Not(c), *hints)      # prefer a counterexample that can be replayed natively
+                    r2, m2 = self._check_fresh(self.query_timeout_ms, z3.Not(c), *hints)      # prefer a counterexample that can be replayed natively
                     if r2 == z3.sat:
                         m = m2
                 ob.model = self.model_inputs(m)
@@ -502,6 +516,15 @@ class Engine:
                 ob.detail += ' solver: %s' % self.solver.reason_unknown()
             self._ob_cache.setdefault(key, []).append((goal, ob))
         ob.seconds = time.time() - t0
+        if os.environ.get('VERIF_DUMP') and ob.seconds > float(os.environ['VERIF_DUMP']) and not z3.is_true(c):
+            n = len(os.listdir('/tmp/smt')) if os.path.isdir('/tmp/smt') else 0
+            os.makedirs('/tmp/smt', exist_ok=True)
+            s2 = z3.Solver()
+            s2.add(*self.path.pc)
+            s2.add(z3.Not(c))
+            open('/tmp/smt/q%03d.smt2' % n, 'w').write('; %s %s %.1fs %s\n(set-logic QF_UFBV)\n' % (kind, label, ob.seconds, ob.status) + s2.to_smt2())
+        if os.environ.get('VERIF_DEBUG') and ob.seconds > 1:
+            print('OBLIGE %.1fs %s %s %s %s' % (ob.seconds, kind, label[:50], ob.status, ob.detail[:60]), flush=True)
         self.obligations.append(ob)
         return ob
 
